@@ -1,6 +1,7 @@
 //! C19: the crates and std functions the command-line tool's model mirrors, in-process:
 //! `IpAddr::from_str` + `Display`, `hex::encode` / `decode`, `BASE64_STANDARD.encode` / `decode`,
-//! `serde_json::to_string` / `to_string_pretty` / `from_slice` (on a token tree that keeps member order).
+//! `serde_json::to_string` / `to_string_pretty` / `from_slice` (on a token tree that keeps member order),
+//! `bson::to_vec` (on a token tree that calls the `serialize_*` of each Rust number type) / `bson::RawDocument`.
 use crate::canon::*;
 use base64::Engine;
 use serde::de::{MapAccess, SeqAccess, Visitor};
@@ -16,6 +17,8 @@ pub fn entries() -> Vec<(&'static str, crate::EntryFn)> {
         ("b64-dec", entry_b64_dec),
         ("json-print", entry_json_print),
         ("json-read", entry_json_read),
+        ("bson-enc", entry_bson_enc),
+        ("bson-dec", entry_bson_dec),
     ]
 }
 
@@ -224,5 +227,174 @@ fn entry_json_read(args: &[&str]) -> String {
             out.join(" ")
         }
         Err(_) => "bad".into(),
+    }
+}
+
+/// a serde value whose numbers remember their Rust type (the type decides the BSON type the crate writes)
+enum BTok {
+    Null,
+    Bool(bool),
+    I8(i8),
+    I16(i16),
+    I32(i32),
+    I64(i64),
+    U8(u8),
+    U16(u16),
+    U32(u32),
+    U64(u64),
+    F64(f64),
+    Str(String),
+    Arr(Vec<BTok>),
+    Doc(Vec<(String, BTok)>),
+}
+
+impl Serialize for BTok {
+    fn serialize<S: Serializer>(&self, s: S) -> Result<S::Ok, S::Error> {
+        match self {
+            BTok::Null => s.serialize_unit(),
+            BTok::Bool(b) => s.serialize_bool(*b),
+            BTok::I8(n) => s.serialize_i8(*n),
+            BTok::I16(n) => s.serialize_i16(*n),
+            BTok::I32(n) => s.serialize_i32(*n),
+            BTok::I64(n) => s.serialize_i64(*n),
+            BTok::U8(n) => s.serialize_u8(*n),
+            BTok::U16(n) => s.serialize_u16(*n),
+            BTok::U32(n) => s.serialize_u32(*n),
+            BTok::U64(n) => s.serialize_u64(*n),
+            BTok::F64(n) => s.serialize_f64(*n),
+            BTok::Str(t) => s.serialize_str(t),
+            BTok::Arr(items) => {
+                let mut seq = s.serialize_seq(Some(items.len()))?;
+                for i in items {
+                    seq.serialize_element(i)?;
+                }
+                seq.end()
+            }
+            BTok::Doc(members) => {
+                let mut map = s.serialize_map(Some(members.len()))?;
+                for (k, v) in members {
+                    map.serialize_entry(k, v)?;
+                }
+                map.end()
+            }
+        }
+    }
+}
+
+fn parse_btok<'a>(toks: &mut std::slice::Iter<'a, &'a str>) -> Option<BTok> {
+    let t = *toks.next()?;
+    Some(match t.as_bytes().first()? {
+        b'N' if t == "N" => BTok::Null,
+        b'T' if t == "T" => BTok::Bool(true),
+        b'F' if t == "F" => BTok::Bool(false),
+        b'I' => {
+            let (k, d) = t[1 ..].split_once(':')?;
+            match k {
+                "i8" => BTok::I8(d.parse().ok()?),
+                "i16" => BTok::I16(d.parse().ok()?),
+                "i32" => BTok::I32(d.parse().ok()?),
+                "i64" => BTok::I64(d.parse().ok()?),
+                "u8" => BTok::U8(d.parse().ok()?),
+                "u16" => BTok::U16(d.parse().ok()?),
+                "u32" => BTok::U32(d.parse().ok()?),
+                "u64" => BTok::U64(d.parse().ok()?),
+                _ => return None,
+            }
+        }
+        b'D' => BTok::F64(f64::from_bits(u64::from_str_radix(&t[1 ..], 16).ok()?)),
+        b'S' => BTok::Str(String::from_utf8(unhex(if t.len() == 1 { "-" } else { &t[1 ..] })?).ok()?),
+        b'A' => {
+            let n: usize = t[1 ..].parse().ok()?;
+            let mut items = Vec::new();
+            for _ in 0 .. n {
+                items.push(parse_btok(toks)?);
+            }
+            BTok::Arr(items)
+        }
+        b'O' => {
+            let n: usize = t[1 ..].parse().ok()?;
+            let mut members = Vec::new();
+            for _ in 0 .. n {
+                let k = String::from_utf8(unhex(toks.next()?)?).ok()?;
+                members.push((k, parse_btok(toks)?));
+            }
+            BTok::Doc(members)
+        }
+        _ => return None,
+    })
+}
+
+/// `bson-enc <tokens>`: `bson::to_vec` of the value (what the CLI prints as hex / base64)
+fn entry_bson_enc(args: &[&str]) -> String {
+    let mut it = args.iter();
+    let Some(v) = parse_btok(&mut it) else { return "bad-case".into() };
+    if it.next().is_some() {
+        return "bad-case".into();
+    }
+    match bson::to_vec(&v) {
+        Ok(b) => format!("OK {}", hex_or_dash(&b)),
+        Err(bson::ser::Error::UnsignedIntegerExceededRange(_)) => "ERR u64".into(),
+        Err(bson::ser::Error::InvalidCString(_)) => "ERR cstring".into(),
+        Err(bson::ser::Error::SerializationError { message, .. }) if message.contains("non-document type at the top level") => "ERR top".into(),
+        Err(e) => format!("ERR other {}", hex(e.to_string().as_bytes())),
+    }
+}
+
+/// why a document cannot be shown as tokens
+enum BsonRead {
+    /// the crate does not read it
+    Bad,
+    /// it holds an element type the serialiser never writes for a serde value of the kinds above
+    Unsupported,
+}
+
+fn show_raw_doc(doc: &bson::RawDocument, out: &mut Vec<String>) -> Result<(), BsonRead> {
+    let mut members = Vec::new();
+    for r in doc {
+        let (k, v) = r.map_err(|_| BsonRead::Bad)?;
+        let mut one = vec![hex_or_dash(k.as_bytes())];
+        show_raw(v, &mut one)?;
+        members.push(one);
+    }
+    out.push(format!("O{}", members.len()));
+    out.extend(members.into_iter().flatten());
+    Ok(())
+}
+
+fn show_raw(v: bson::RawBsonRef, out: &mut Vec<String>) -> Result<(), BsonRead> {
+    use bson::RawBsonRef as R;
+    match v {
+        R::Null => out.push("N".into()),
+        R::Boolean(b) => out.push(if b { "T" } else { "F" }.into()),
+        R::Int32(n) => out.push(format!("Ii32:{n}")),
+        R::Int64(n) => out.push(format!("Ii64:{n}")),
+        R::Double(d) => out.push(format!("D{:016x}", d.to_bits())),
+        R::String(s) => out.push(format!("S{}", hex(s.as_bytes()))),
+        R::Document(d) => show_raw_doc(d, out)?,
+        R::Array(a) => {
+            let mut items = Vec::new();
+            for r in a {
+                let mut one = Vec::new();
+                show_raw(r.map_err(|_| BsonRead::Bad)?, &mut one)?;
+                items.push(one);
+            }
+            out.push(format!("A{}", items.len()));
+            out.extend(items.into_iter().flatten());
+        }
+        _ => return Err(BsonRead::Unsupported),
+    }
+    Ok(())
+}
+
+/// `bson-dec <hex document>`: the value the crate's raw reader finds, as tokens
+fn entry_bson_dec(args: &[&str]) -> String {
+    let [h] = args else { return "bad-case".into() };
+    let Some(bytes) = unhex(h) else { return "bad-case".into() };
+    let Ok(doc) = bson::RawDocument::from_bytes(&bytes) else { return "bad".into() };
+    let mut out = Vec::new();
+    match show_raw_doc(doc, &mut out) {
+        Ok(()) => out.join(" "),
+        Err(BsonRead::Bad) => "bad".into(),
+        Err(BsonRead::Unsupported) => "unsupported".into(),
     }
 }
